@@ -43,6 +43,9 @@ structure Family where
       multipliers certifying the identity modulo them -/
   hyps : List Nat → List (E × E) := fun _ => []
   cert : List Nat → Nat → List E := fun _ _ => []
+  /-- (`polyMod` only) equalities between atoms assumed by the theorem and applied as rewrites to the
+      traced expression before the comparison, e.g. `cos (-t) = cos t` -/
+  rw : List Nat → List (E × E) := fun _ => []
   /-- `post` is the identity (outputs compared directly) -/
   isPlain : Bool := true
   /-- tree mode: the unit may branch; output `j` is compared, decision by decision, with `specT ks j`
@@ -69,7 +72,7 @@ def Family.leafOK (f : Family) (ks : List Nat) (j : Nat) (e s : E) : Bool :=
   | .poly => e == s || polyEq e s          -- literal equality first: cheap when the spec mirrors the code
   | .syn => e == s
   | .frac => (e == s || fracEq e s) && e.divisors.all (divisorAllowed (f.allowed ks)) && s.divisors.all (divisorAllowed (f.allowed ks))
-  | .polyMod => polyEqMod (f.hyps ks) (f.cert ks j) e s
+  | .polyMod => polyEqMod (f.hyps ks) (f.cert ks j) (e.rewrite (f.rw ks)) s
   | .fracMod => fracEqMod (f.hyps ks) (f.cert ks j) e s && e.divisors.all (divisorAllowed (f.allowed ks))
       && s.divisors.all (divisorAllowed (f.allowed ks))
 
